@@ -235,16 +235,31 @@ def brute(infr, inam, edges, mode):
     return dense, one
 
 
+def _layout(x, how):
+    """the same values in another memory layout (the spectrum is a function of the values only)"""
+    x = np.asarray(x, float)
+    if how == 'F':
+        return np.asfortranarray(x.copy())
+    if how == 'T' and x.ndim == 2:                 # transposed view of a C-ordered (M, T) array, e.g. np.vstack((ia1, ia2)).T
+        return np.ascontiguousarray(x.T).T
+    if how == 'strided' and x.ndim == 2:           # every other row / column of a larger buffer
+        big = np.full((2 * x.shape[0], 2 * x.shape[1]), -7.0)
+        big[::2, ::2] = x
+        return big[::2, ::2]
+    return x.copy()
+
+
 def replay(w):
     import emd.spectra as ES
     if w.get('kind') != 'hht':
         return False, 'unknown witness kind'
     f, a, e = np.array(w['infr'], float), np.array(w['inam'], float), np.array(w['edges'], float)
     dense, one = brute(f, a, e, w['mode'])
+    lay = w.get('layout', 'C')
     msgs = []
     try:
-        got_d = ES.hilberthuang(f.copy(), a.copy(), e, mode=w['mode'])
-        got_s = ES.hilberthuang(f.copy(), a.copy(), e, mode=w['mode'], return_sparse=True).toarray()
+        got_d = ES.hilberthuang(_layout(f, lay), _layout(a, lay), e, mode=w['mode'])
+        got_s = ES.hilberthuang(_layout(f, lay), _layout(a, lay), e, mode=w['mode'], return_sparse=True).toarray()
         if got_d.shape != dense.shape or not np.allclose(got_d, dense, rtol=1e-12, atol=1e-12):
             msgs.append('dense spectrum %s differs from per-sample histogram %s' % (np.round(got_d, 6).tolist(), np.round(dense, 6).tolist()))
         if got_s.shape != dense.shape or not np.allclose(got_s, dense, rtol=1e-12, atol=1e-12):
@@ -252,7 +267,7 @@ def replay(w):
     except Exception as ex:
         msgs.append('hilberthuang raised %s: %s' % (type(ex).__name__, ex))
     try:
-        got_1 = ES.hilberthuang_1d(f.copy(), a.copy(), e, mode=w['mode'])
+        got_1 = ES.hilberthuang_1d(_layout(f, lay), _layout(a, lay), e, mode=w['mode'])
         if got_1.shape != one.shape or not np.allclose(got_1, one, rtol=1e-12, atol=1e-12):
             msgs.append('1-D marginal %s differs from per-sample histogram %s' % (np.round(got_1, 6).tolist(), np.round(one, 6).tolist()))
     except Exception as ex:
@@ -267,7 +282,7 @@ def refute(tier, seed, emit):
     edges_sets = [np.array([1.0, 2.0]), np.array([1.0, 2.0, 3.0]), np.array([0.5, 1.0, 2.0, 4.0])]
     if tier == 'thorough':
         edges_sets.append(ES.define_hist_bins(1, 16, 4, 'log')[0])
-    emit.scope('every frequency array [T<=%d x M<=2] over {below, each edge, each bin midpoint, above, negative, NaN} x bin sets with 1..3(4) bins (linear and log spaced) x {energy, amplitude}: dense, sparse and 1-D vs a per-sample brute-force histogram; non-trivial = has an out-of-range or edge-valued sample' % (2 if tier == 'quick' else 3), exhaustive=True)
+    emit.scope('every frequency array [T<=%d x M<=2] over {below, each edge, each bin midpoint, above, negative, NaN} x bin sets with 1..3(4) bins (linear and log spaced) x {energy, amplitude}: dense, sparse and 1-D vs a per-sample brute-force histogram (2x2 arrays of the 1-bin set also Fortran-ordered and strided); non-trivial = has an out-of-range or edge-valued sample' % (2 if tier == 'quick' else 3), exhaustive=True)
     for e in edges_sets:
         vals = [e[0] - 1.0, -1.0] + list(e) + [(e[k] + e[k + 1]) / 2 for k in range(len(e) - 1)] + [e[-1] + 1.0]
         if tier == 'thorough':
@@ -280,11 +295,12 @@ def refute(tier, seed, emit):
                 for mode in ('energy', 'amplitude'):
                     nontriv = bool(np.any(np.isin(f, e)) or np.any(f < e[0]) or np.any(f >= e[-1]))
                     emit.case((tuple(e), combo, Tn, M, mode), nontrivial=nontriv, contract='hilberthuang')
-                    w = {'kind': 'hht', 'infr': f.tolist(), 'inam': a.tolist(), 'edges': e.tolist(), 'mode': mode}
-                    ok, msg = replay(w)
-                    if ok:
-                        cl = 'raises' if 'raised' in msg else ('1d-marginal' if msg.startswith('1-D') else 'each-sample-in-exactly-its-half-open-bin')
-                        emit.violation(cl, w, msg)
+                    for lay in (('C', 'F', 'strided') if (Tn, M) == (2, 2) and len(e) == 2 else ('C',)):
+                        w = {'kind': 'hht', 'infr': f.tolist(), 'inam': a.tolist(), 'edges': e.tolist(), 'mode': mode, 'layout': lay}
+                        ok, msg = replay(w)
+                        if ok:
+                            cl = 'raises' if 'raised' in msg else ('1d-marginal' if msg.startswith('1-D') else 'each-sample-in-exactly-its-half-open-bin')
+                            emit.violation(cl + ('' if lay == 'C' else ':memory-layout'), w, msg)
                 if emit.full:
                     return
     # bin construction
@@ -297,7 +313,7 @@ def refute(tier, seed, emit):
                 emit.violation('bin-construction', {'kind': 'hht', 'infr': [[1.0]], 'inam': [[1.0]], 'edges': [1.0, 2.0], 'mode': 'energy'}, 'define_hist_bins(1,9,%d,%s) gave %s' % (nb, scale, ed))
     r = rng(seed, 10)
     nr = 30 if tier == 'quick' else 300
-    emit.scope('%d seeded random arrays [T 5..200 x M 1..5] with values around and outside linear/log bin sets; totals cross-checked' % nr)
+    emit.scope('%d seeded random arrays [T 5..200 x M 1..5] with values around and outside linear/log bin sets, in C / Fortran / transposed-view / strided memory layouts; totals cross-checked' % nr)
     for k in range(nr):
         Tn, M = int(r.randint(5, 200)), int(r.randint(1, 6))
         nb = int(r.randint(1, 12))
@@ -307,9 +323,10 @@ def refute(tier, seed, emit):
         a = r.rand(Tn, M) + 0.1
         mode = 'energy' if k % 3 else 'amplitude'
         emit.case(('rand', k), contract='hilberthuang')
-        w = {'kind': 'hht', 'infr': f.tolist(), 'inam': a.tolist(), 'edges': e.tolist(), 'mode': mode}
+        lay = ['C', 'F', 'T', 'strided'][k % 4]
+        w = {'kind': 'hht', 'infr': f.tolist(), 'inam': a.tolist(), 'edges': e.tolist(), 'mode': mode, 'layout': lay}
         ok, msg = replay(w)
         if ok:
-            emit.violation('each-sample-in-exactly-its-half-open-bin', w, msg[:300])
+            emit.violation('each-sample-in-exactly-its-half-open-bin' + ('' if lay == 'C' else ':memory-layout'), w, msg[:300])
         if emit.full:
             return
